@@ -1,5 +1,5 @@
 CONSTANTS RMax = 3 NMax = 5
 INIT Init
 NEXT Next
-INVARIANTS VerdictOK CodewordOK LinearOK StaircaseInvertible SameAsFunctional JordanOK
+INVARIANTS VerdictOK CodewordOK LinearOK StaircaseInvertible SameAsFunctional JordanOK ArmsAgree
 CHECK_DEADLOCK FALSE
